@@ -273,6 +273,12 @@ Definition delete_node_edges (st : state) (n : Z) : state :=
 Definition edge_count (st : state) : Z :=
   Z.of_nat (length (filter (fun e => c_visible_at (e_chain st e) (st_epoch st)) (range (e_next st)))).
 
+(** [GrafeoDB::delete_node] since 109e5bf, first part: if [store.get_node(id)] (store epoch) sees the node, every
+    incident edge (forward list, then backward list, collected first) goes through [GrafeoDB::delete_edge] =
+    [store.delete_edge] at the store's own epoch — the same loop as [delete_node_edges] *)
+Definition db_detach (st : state) (n : Z) : state :=
+  if c_visible_at (n_chain st n) (st_epoch st) then delete_node_edges st n else st.
+
 (** [discard_uncommitted_versions] *)
 Definition discard_uncommitted_versions (st : state) (t : Z) : state :=
   let st1 := set_nodes st (n_next st) (fun n => c_remove_by (n_chain st n) t) (n_labels st) (l_index st) (n_props st) in
@@ -343,7 +349,7 @@ Inductive op :=
 | RemoveLabel (s : Z) (m : sel) (id l : Z)              (* ... REMOVE n:l *)
 | InsertTriple (s : Z) (t : triple)                     (* SPARQL INSERT DATA *)
 | DeleteTriple (s : Z) (t : triple)                     (* SPARQL DELETE DATA *)
-| DbDeleteNode (n : Z)                                  (* GrafeoDB::delete_node *)
+| DbDeleteNode (n : Z)                                  (* GrafeoDB::delete_node (detaches the node first: 109e5bf) *)
 | DbSetProp (n k : Z) (v : val)                         (* GrafeoDB::set_node_property *)
 | DbRemoveProp (n k : Z)                                (* GrafeoDB::remove_node_property *)
 | DbAddLabel (n l : Z) | DbRemoveLabel (n l : Z)        (* GrafeoDB::add_node_label / remove_node_label *)
@@ -491,7 +497,10 @@ Definition step (st : state) (o : op) : state * out :=
       | Some t => (set_rdf st (rdf st) (upd (rdf_buf st) t (rdf_buf st t ++ [PDel tr])), OUnit)
       | None => (set_rdf st (rdf_remove (rdf st) tr) (rdf_buf st), OUnit)
       end
-  | DbDeleteNode n => let '(st1, b) := delete_node_at_epoch st n (st_epoch st) in (st1, OBool b)
+  | DbDeleteNode n =>
+      (* 109e5bf: GrafeoDB::delete_node detaches first ([db_detach]), then store.delete_node *)
+      let st1 := db_detach st n in
+      let '(st2, b) := delete_node_at_epoch st1 n (st_epoch st1) in (st2, OBool b)
   | DbSetProp n k v => (set_node_property st n k v, OUnit)
   | DbRemoveProp n k => let '(st1, b) := remove_node_property st n k in (st1, OBool b)
   | DbAddLabel n l => let '(st1, b) := add_label st n l in (st1, OBool b)
@@ -507,7 +516,8 @@ Fixpoint run_from (st : state) (ops : list op) : state * list out :=
 Definition run (ops : list op) : list out := snd (run_from init ops).
 Definition final (ops : list op) : state := fst (run_from init ops).
 
-(** ** the code before the repairs 752d5ee (C01-K7) and 3eb02b5 (C02-K4), kept for the [_pre_refuted] theorems *)
+(** ** the code before the repairs 752d5ee (C01-K7), 3eb02b5 (C02-K4) and 109e5bf (GrafeoDB::delete_node detaches),
+    kept for the [_pre_refuted] theorems *)
 (** [GrafeoDB::execute_cypher_with_params] planned with a private TransactionManager: viewing epoch 0 *)
 Definition read_pre (st : state) (s : Z) (k : kind) : out :=
   match k with
@@ -519,6 +529,7 @@ Definition step_pre (st : state) (o : op) : state * out :=
   match o with
   | DropSession s => (set_sess st (upd (sess st) s None), OUnit)
   | Read s k => (st, read_pre st s k)
+  | DbDeleteNode n => let '(st1, b) := delete_node_at_epoch st n (st_epoch st) in (st1, OBool b)   (* before 109e5bf *)
   | _ => step st o
   end.
 Fixpoint run_from_pre (st : state) (ops : list op) : state * list out :=
